@@ -39,7 +39,7 @@ if os.path.exists(f"{V}/not_applicable.json"):
 PENDING = "check not built yet (build in progress, see DESIGN.md section 10)"
 
 m = {"version": 1,
-     "setup_cmd": "cd /verif/harness && cargo build --release --offline && cd /verif && python3 tools/sany_all.py",
+     "setup_cmd": "sh /verif/tools/setup.sh",
      "hooks": {"guard": "lzma_rust2_verif",
                "enable": "--cfg lzma_rust2_verif via rustflags in /verif/harness/.cargo/config.toml (every harness build)",
                "baseline_off_cmd": "cd /repo && cargo test --workspace --no-fail-fast --offline",
